@@ -120,6 +120,11 @@ def validConcrete (kwOnlyTargets : List Nat) (c : Cfg) : Bool :=
 
 /-! ### Reviewed exception lists (C18 table theorems) -/
 
+/-- the reviewed test by which `merge_args` decides that an option was given on the command line: identity with
+`None`, NOT truthiness — an empty string (`--special-field-name-prefix ""`), like any other falsy value, is a
+given value (`given` keeps `some v` for every `v`) -/
+def reviewedMergeFilters : List Nat := [k! "getattr(args, f) is not None"]
+
 /-- argparse actions that are not generator options -/
 def metaDests : List Nat := [k! "help", k! "no_color", k! "version"]
 
